@@ -428,6 +428,7 @@ type Contract struct {
 	Touches  []string  // extern: params whose per-object ghost state becomes unknown
 	Fresh    bool      // extern: the first result is a newly allocated object
 	NoWrap   bool      // signed 64-bit arithmetic is proved overflow-free and then treated as mathematical
+	NoWrapProps []string // nowrap[C02]: only in the checks of these properties
 }
 
 type SpecFunc struct {
@@ -681,6 +682,7 @@ func addClause(c *Contract, cl *Clause) {
 		c.Fresh = true
 	case "nowrap":
 		c.NoWrap = true
+		c.NoWrapProps = cl.Props
 	}
 }
 
